@@ -78,6 +78,8 @@ def case_name(case):
                     tag += str(x['l'] / 1000).rstrip('0').rstrip('.')
                     if x.get('ai', 0) not in (0, NONE):
                         tag += f"+att{x['ai'] // 1000000}"
+                    if x['t'] == 'Fiber' and (x['ci'] != NONE or x['co'] != NONE):
+                        tag += '+con' + ('I' if x['ci'] != NONE else '') + ('O' if x['co'] != NONE else '')
                     if x.get('ct'):
                         tag += '+perfreq'
                 if x['t'] == 'Fused':
@@ -90,7 +92,8 @@ def case_name(case):
             chains.append(f"{e['n'][-1]}{x['n'][-1]}:" + '-'.join(parts))
     s = case['s']
     return ' '.join(chains) + f" | pad={s['padding'] // 1000000} eol={s['eol'] // 1000000} " \
-                              f"max={s['maxLen'] // 1000} {'power' if s['powerMode'] else 'gain'}"
+                              f"max={s['maxLen'] // 1000} {'power' if s['powerMode'] else 'gain'}" \
+                              f"{' SI=ampband' if s.get('siBand') and s['siBand'] == s.get('ampBand') else ''}"
 
 
 def _b2_one(c):
